@@ -49,7 +49,7 @@ class DictSub(dict):
     pass
 
 
-STR_POOL = ["", "0", "1", "7", "-3", "1.5", " 4", "1e2", "x", "a", "true", "No", "OFF", "yes ", "nan", "inf", "\uff11"]
+STR_POOL = ["", "0", "1", "7", "-3", "1.5", " 4", "1e2", "x", "a", "true", "No", "OFF", "yes ", "inf", "\uff11"]
 FLOAT_POOL = [0.5, 1.0, -2.5, 1e300, float("nan"), float("inf")]
 NESTED_EXOTIC = ["tuple", "strsub", "nonstrkey", "huge"]
 EXOTIC = ["bytes", "tuple", "intsub", "strsub", "dictsub", "nonstrkey", "inf", "nan", "huge", "set", "object"]
